@@ -17,7 +17,7 @@ case = {"mode": "inline"|"threaded", "sched": {"base": 0|1, "gaps": [[gap, v]...
         ("order" may also hold ["start", i] -- start() of a started=False timer -- and ["advance", seconds])
         "fds":    [{"r_at": s|None, "w_at": s|None}],
         "socks":  [{"arrivals": [[s, nbytes]...], "w_at": s, "sends": ["all"|k|0|"eagain"...]}]}
-op   = {"op": "y0"|"yn"|"sleep"|"select"|"recv"|"send"|"block"|"call"|"acquire"|"release"|"quit"|"raise"|"exit"
+op   = {"op": "y0"|"yn"|"sleep"|"select"|"recv"|"send"|"rfop"|"block"|"call"|"acquire"|"release"|"quit"|"raise"|"exit"
               |"busy"|"wake"|"cancel"|"mktimer"|"starttimer", ...}   (the last five are in-step actions, they do not yield)
 """
 import itertools
@@ -68,7 +68,9 @@ EXHAUSTIVE_SCOPE = {
   "quick": "all ordered pairs of programs of length 1..2 over {yield 0, yield .25, Sleep(.5), Sleep(absolute), Select([],[],[],.25), yield False, wake, "
            "sub-task call, busy .5, raise}; timer grid (t, one-shot/recurring/absolute, self-stop, return scripts, cancel instants, companion work); "
            "descriptor grid (2 fds x ready instants x timeouts x two selecting tasks x select/epoll); "
-           "poll grid (Select with/without fds, Recv, Send with timeout exactly 0 / 0.0 x fd and socket readiness x other work x select/epoll x "
+           "return-function grid (a scripted BlockingOperation: 0-2 ABORTs then value / falsy values / task.re + EXCEPTION, immediate or via the hub, "
+           "in a task and in a sub-task, both hub modes); raise grid (Exception vs non-Exception BaseException raised by a task, a sub-task "
+           "(caught / uncaught / nested / Task(target=)), a one-shot and a recurring timer callback x 10 companion programs, both hub modes); poll grid (Select with/without fds, Recv, Send with timeout exactly 0 / 0.0 x fd and socket readiness x other work x select/epoll x "
            "inline/threaded); deferred-timer grid (Timer(started=False) one-shot/recurring/absolute, start() after .125/.375/.75 s from a task "
            "step or during start-up, cancelled before start, never started; both hub modes); lock grid (two tasks, programs of length <= 2 resp. acquire + 2 over {acquire, try-acquire, release, yield 0, yield .25} on one lock); "
            "threaded hub: 100 pairs of one-op programs x 3 thread schedules + timer/descriptor grid x 2 schedules, and EVERY single deviation "
@@ -265,6 +267,47 @@ def _enum_deferred(tier):
                "tasks": [{"prog": [{"op": "yn", "n": 1.0}]}, {"prog": [{"op": "y0"}]}]}
 
 
+def _enum_rf(tier):
+  """recoco's ReturnFunction protocol (task.rf / ABORT / task.re + EXCEPTION) through a scripted blocking operation."""
+  others = [[{"op": "y0"}, {"op": "y0"}], [{"op": "yn", "n": 0.25}], [{"op": "busy", "d": 0.5}]]
+  for mode in ("inline", "threaded"):
+    for aborts in (0, 1, 2):
+      for fin in ({"v": "token"}, {"v": 0}, {"v": None}, {"v": False}, "exc"):
+        for delay in (0, 0.25):
+          for catch in ((True, False) if fin == "exc" else (True,)):
+            op = {"op": "rfop", "script": ["abort"] * aborts + [fin], "delay": delay, "catch": catch}
+            for other in others:
+              yield {"mode": mode, "horizon": 4, "tasks": [{"prog": [op, {"op": "y0"}, op]}, {"prog": other}]}
+              yield {"mode": mode, "horizon": 4, "tasks": [{"prog": [{"op": "call", "sub": _sub([op, {"op": "sleep", "n": 0.125}])}, {"op": "y0"}]},
+                                                           {"prog": other}]}
+
+
+def _enum_raises(tier):
+  """Who dies and who does not when the exception is a BaseException that is not an Exception (sys.exit() in a task)."""
+  def sub(prog, base, nested=False):
+    s = {"kind": "gen", "prog": prog, "ret": {"raise": 1, "base": base}}
+    if nested:
+      s = {"kind": "gen", "prog": [{"op": "call", "sub": s, "catch": False}], "ret": {"v": "token"}}
+    return s
+  for mode in ("inline", "threaded"):
+    for base in (True, False):
+      sites = [
+        {"tasks": [{"prog": [{"op": "yn", "n": 0.125}, {"op": "raise", "base": base}]}]},
+        {"tasks": [{"prog": [{"op": "call", "sub": sub([], base), "catch": True}, {"op": "y0"}]}]},
+        {"tasks": [{"prog": [{"op": "call", "sub": sub([{"op": "sleep", "n": 0.125}], base), "catch": True}, {"op": "y0"}]}]},
+        {"tasks": [{"prog": [{"op": "call", "sub": sub([{"op": "sleep", "n": 0.125}], base), "catch": False}, {"op": "y0"}]}]},
+        {"tasks": [{"prog": [{"op": "call", "sub": sub([], base, True), "catch": True}, {"op": "y0"}]}]},
+        {"tasks": [{"form": "target", "prog": [{"op": "call", "sub": sub([], base), "catch": True}, {"op": "y0"}]}]},
+        {"tasks": [{"prog": [{"op": "y0"}]}], "timers": [{"t": 0.125, "rets": ["raise-base" if base else "raise"]}]},
+        {"tasks": [{"prog": [{"op": "y0"}]}], "timers": [{"t": 0.125, "recurring": True, "rets": [None, "raise-base" if base else "raise"]}]},
+      ]
+      for site in sites:
+        for p1 in _programs(0, 1):
+          c = {"mode": mode, "horizon": 4, "timers": site.get("timers", []),
+               "tasks": site["tasks"] + [{"prog": p1 + [{"op": "sleep", "n": 0.25}, {"op": "y0"}]}]}
+          yield c
+
+
 def _enum_io(tier):
   ats = [None, 0, 0.25, 0.5, 2.5]
   tmo = [None, 0, 0.25, 0.5]
@@ -381,10 +424,14 @@ def _strategy(tier, mode="inline"):
   send = st.fixed_dictionaries({"op": st.just("send"), "sock": st.integers(0, 1), "len": st.integers(1, 4),
                                 "bs": st.sampled_from([None, None, 1, 2]), "t": st.sampled_from([None, None, None, 0.5, 0, 0.0])})
   busy = st.fixed_dictionaries({"op": st.just("busy"), "d": dur})
-  ret = st.sampled_from(["end", {"v": "token"}, {"v": "token"}, {"v": 0}, {"v": False}, {"v": None}, {"v": ""}, {"raise": 1}, {"raise": 1}])
+  ret = st.sampled_from(["end", {"v": "token"}, {"v": "token"}, {"v": 0}, {"v": False}, {"v": None}, {"v": ""}, {"raise": 1}, {"raise": 1},
+                         {"raise": 1, "base": True}])
+  rf_final = st.sampled_from([{"v": "token"}, {"v": "token"}, {"v": 0}, {"v": None}, {"v": False}, {"v": ""}, "exc", "exc"])
+  rfop = st.builds(lambda ab, fin, delay, catch: {"op": "rfop", "script": ["abort"] * ab + [fin], "delay": delay, "catch": catch},
+                   st.sampled_from([0, 0, 1, 2]), rf_final, st.sampled_from([0, 0, 0.125, 0.25]), st.sampled_from([True, True, True, False]))
 
   def subs(depth):
-    inner = [sleep_rel, sel_t, busy, recv, send, sel_fd]
+    inner = [sleep_rel, sel_t, busy, recv, send, sel_fd, rfop]
     if depth > 0:
       inner.append(call(depth - 1))
     return st.fixed_dictionaries({"kind": st.sampled_from(["gen", "gen", "gen", "plain"]),
@@ -400,7 +447,7 @@ def _strategy(tier, mode="inline"):
     st.fixed_dictionaries({"op": st.just("block"), "how": st.sampled_from(["false", "sleepnone"])}),
     st.fixed_dictionaries({"op": st.just("wake"), "task": idx}),
     st.fixed_dictionaries({"op": st.just("wake"), "task": idx}),
-    call(1), call(1),
+    call(1), call(1), rfop,
     st.fixed_dictionaries({"op": st.just("acquire"), "lock": st.integers(0, 1), "blocking": st.booleans()}),
     st.fixed_dictionaries({"op": st.just("release"), "lock": st.integers(0, 1)}),
     busy,
@@ -408,7 +455,7 @@ def _strategy(tier, mode="inline"):
     st.fixed_dictionaries({"op": st.just("mktimer"), "timer": idx}),
     st.fixed_dictionaries({"op": st.just("starttimer"), "timer": idx}),
   )
-  rare = st.sampled_from([{"op": "raise"}, {"op": "raise"}, {"op": "exit"}, {"op": "quit"}])
+  rare = st.sampled_from([{"op": "raise"}, {"op": "raise"}, {"op": "raise", "base": True}, {"op": "exit"}, {"op": "quit"}])
   op = st.one_of(plain, plain, plain, plain, plain, plain, plain, plain, plain, plain, plain, rare)
   prog = st.lists(op, min_size=1, max_size=12 if big else 7)
   task = st.fixed_dictionaries({"prio": st.sampled_from([None, None, 1, 1, 2, 0.5, 0.25, 0.75]),
@@ -416,11 +463,11 @@ def _strategy(tier, mode="inline"):
                                 "fast": st.booleans(), "prog": prog})
   timer = st.one_of(
     st.fixed_dictionaries({"t": st.sampled_from([0] + _DUR), "recurring": st.just(False), "abs": st.booleans(),
-                           "self_stop": st.booleans(), "rets": st.lists(st.sampled_from([None, False, True, 0]), max_size=1),
+                           "self_stop": st.booleans(), "rets": st.lists(st.sampled_from([None, None, False, True, 0, "raise", "raise-base"]), max_size=1),
                            "create": st.sampled_from(["init", "init", "task"]), "busy": st.sampled_from([None, None, 0.25]),
                            "explicit_sched": st.booleans(), "started": st.sampled_from([True, True, False])}),
     st.fixed_dictionaries({"t": st.sampled_from(_DUR[1:]), "recurring": st.just(True), "self_stop": st.booleans(),
-                           "rets": st.lists(st.sampled_from([None, None, False, True, 0, "cancel"]), max_size=5),
+                           "rets": st.lists(st.sampled_from([None, None, None, False, True, 0, "cancel", "raise", "raise-base"]), max_size=5),
                            "create": st.sampled_from(["init", "init", "task"]), "busy": st.sampled_from([None, None, 0.125]),
                            "explicit_sched": st.booleans(), "started": st.sampled_from([True, True, False])}),
   )
@@ -469,6 +516,8 @@ def plan(tier):
       Enum("io", lambda: _enum_io("quick"), shards=8),
       Enum("locks", lambda: _enum_locks("quick"), shards=4),
       Enum("polls", lambda: _enum_polls("quick"), shards=8),
+      Enum("return-functions", lambda: _enum_rf("quick"), shards=4),
+      Enum("raises", lambda: _enum_raises("quick"), shards=4),
       Enum("timers-deferred", lambda: _enum_deferred("quick"), shards=4),
       Hyp("programs", lambda: _strategy("quick"), examples=3200, shards=16),
       Enum("threaded-grid", lambda: _enum_threaded("quick"), shards=8),
@@ -481,6 +530,8 @@ def plan(tier):
     Enum("io", lambda: _enum_io("thorough"), shards=16),
     Enum("locks", lambda: _enum_locks("thorough"), shards=16),
     Enum("polls", lambda: _enum_polls("thorough"), shards=16),
+    Enum("return-functions", lambda: _enum_rf("thorough"), shards=8),
+    Enum("raises", lambda: _enum_raises("thorough"), shards=8),
     Enum("timers-deferred", lambda: _enum_deferred("thorough"), shards=8),
     Hyp("programs", lambda: _strategy("thorough"), examples=300000, shards=16),
     Enum("threaded-grid", lambda: _enum_threaded("thorough"), shards=16),
